@@ -210,6 +210,9 @@ public:
 
 
 
+template<template<typename,size_t...> class TensorType, typename T, size_t DIMS, size_t ... Rest>
+constexpr std::array<size_t,DIMS> TensorConstViewExpr<TensorType<T,Rest...>,DIMS>::products_;
+
 // Generic non-const tensor views based on sequences/slices
 //----------------------------------------------------------------------------------------------//
 template<template<typename,size_t...> class TensorType, typename T, size_t DIMS, size_t ... Rest>
